@@ -10,6 +10,7 @@ ValOf(v) == IF v.ty = "str" THEN Q!Str(v.codes) ELSE Q!Num(v.n)
 \* Lucene wildcards on byte codes: 42 = * (any run)  63 = ? (any one character)
 RECURSIVE Match(_,_)
 Match(p, s) == IF p = <<>> THEN s = <<>>
+               ELSE IF Head(p) = 92 /\ Len(p) >= 2 THEN s # <<>> /\ Head(s) = p[2] /\ Match(SubSeq(p, 3, Len(p)), Tail(s))   \* \c : the character c itself
                ELSE IF Head(p) = 42 THEN \E k \in 0..Len(s) : Match(Tail(p), SubSeq(s, k + 1, Len(s)))
                ELSE s # <<>> /\ (Head(p) = 63 \/ Head(p) = Head(s)) /\ Match(Tail(p), Tail(s))
 
